@@ -244,7 +244,7 @@ def lib_call(rng, names):
         elif c < 0.86:
             args.append(ir.call('objectNew', ir.s('a'), ir.num(1)))
         elif c < 0.885 and name not in PATHO_EXCLUDE:
-            args.append(ir.var(rng.choice(['gDeep', 'gCyc', 'gDeepObj'])))
+            args.append(ir.var(rng.choice(['gDeep', 'gCyc', 'gDeepObj', 'gCycObj'])))
         elif c < 0.90:
             args.append(ir.var(rng.choice(['fnA', 'hostTick'])))
         elif c < 0.93:
@@ -336,6 +336,15 @@ def gen_adversarial(seed, rng):
             # hand-built model: a call expression without the optional 'args' member
             e = {'function': {'name': rng.choice(['fnA', 'fnRec', 'arrayNew', 'stringLength', 'hostTick', 'mathMax'])}}
             kinds.append('call-without-args')
+        elif c < 0.165:
+            # a self-containing array / object as the non-string operand of '+': the text conversion happens in the
+            # operator itself, outside the call wrapper (comparisons of such values are observation O6, not generated)
+            cyc = ir.var(rng.choice(['gCyc', 'gCycObj']))
+            text = ir.s(rng.choice(['a=', '', 'x']))
+            e = ir.binop('+', text, cyc) if rng.random() < 0.5 else ir.binop('+', cyc, text)
+            if rng.random() < 0.3:
+                e = ir.binop('+', e, ir.s('!'))
+            kinds.append('cyclic-text')
         elif c < 0.25:
             e = classic(rng)
             kinds.append('classic')
@@ -628,7 +637,9 @@ def pathological_globals():
         deep_obj = {'k': deep_obj}
     cyc = [1.0]
     cyc.append(cyc)
-    return {'gDeep': deep, 'gDeepObj': deep_obj, 'gCyc': cyc}
+    cyc_obj = {'n': 1.0}
+    cyc_obj['self'] = cyc_obj
+    return {'gDeep': deep, 'gDeepObj': deep_obj, 'gCyc': cyc, 'gCycObj': cyc_obj}
 
 
 def datetime_globals():
